@@ -1354,7 +1354,7 @@ class Arm(Robot):
         """
         theta = self._helper_ensure_theta_not_none(theta)
         jacobian = np.zeros((6, self.num_dof))
-        temp = lambda x : self.FK(x).gTM().T.flatten()
+        temp = lambda x : self.FK(x, protect = True).gTM().T.flatten()
         numerical_jacobian = fsr.numericalJacobian(temp, theta, 0.0005)
         for i in range(0, self.num_dof):
             inv_ee_t = ling.inv(self.FK(theta).gTM().T)
